@@ -9,6 +9,8 @@
  *   C <peer> [hold]     CON GET /r (answered piggybacked)
  *   O <peer>            GET /o Observe=0 (the observer entry holds the session); o <peer> = Observe=1 (cancel)
  *   P <peer>            the same registration again under another token (replaces the observer entry); p <peer> cancels under that token
+ *   B <peer>            GET /b with Block2 0 / 16 bytes: the handler hands over a 200-byte body (coap_add_data_large_response): a transfer hangs off the session
+ *   b <peer> <num>      the peer asks for block <num> of it;   e <peer> <num>  the same with an ETag option that is not the body's
  *   A <peer>            GET /a: the handler registers an async entry (it holds the session) and answers nothing yet
  *   a <peer>            the application triggers the async entry of that peer: the handler runs again and answers
  *   U <peer>            the application releases the reference it took on <peer>'s session
@@ -32,7 +34,7 @@
 #define NPEER 64
 static coap_context_t *ctx;
 static coap_address_t srv_addr, peer_addr[NPEER];
-static coap_resource_t *res_r, *res_o, *res_a;
+static coap_resource_t *res_r, *res_o, *res_a, *res_b;
 static coap_session_t *held[NPEER];
 static coap_async_t *asyncs[NPEER];
 static int hold_next[NPEER];
@@ -156,9 +158,8 @@ static int peer_of_session(coap_session_t *s) {
 #define peer_of(a) peer_of_addr(a)
 static void h_req(coap_resource_t *r, coap_session_t *s, const coap_pdu_t *req, const coap_string_t *q, coap_pdu_t *resp) {
   int p = peer_of_session(s);
-  (void)q;
   fprintf(sim_trace, "{\"e\":\"Req\",\"t\":%llu,\"peer\":%d,\"s\":%d,\"res\":\"%s\"}\n", (unsigned long long)sim_now, p, sid_of(s),
-          r == res_r ? "r" : r == res_o ? "o" : "a");
+          r == res_r ? "r" : r == res_o ? "o" : r == res_b ? "b" : "a");
   if (p >= 0 && hold_next[p] && !held[p]) {
     held[p] = coap_session_reference(s);
     hold_next[p] = 0;
@@ -180,6 +181,12 @@ static void h_req(coap_resource_t *r, coap_session_t *s, const coap_pdu_t *req, 
     }
   }
   coap_pdu_set_code(resp, COAP_RESPONSE_CODE_CONTENT);
+  if (r == res_b) {
+    static uint8_t body[200];
+    memset(body, 'b', sizeof(body));
+    coap_add_data_large_response(r, s, req, resp, q, COAP_MEDIATYPE_TEXT_PLAIN, -1, 0x42, sizeof(body), body, NULL, NULL);
+    return;
+  }
   coap_add_data(resp, 2, (const uint8_t *)"ok");
 }
 static int in_teardown;
@@ -236,6 +243,22 @@ static void request(int p, const char *path, int con, int obs) {
   sim_run(sim_now + 5);
 }
 
+/* GET /b with Block2 num / 16 bytes, optionally with an ETag that is not the body's */
+static void request_b(int p, int num, int wrong_etag) {
+  uint8_t b[32];
+  size_t n = 0;
+  uint16_t mid = cmid++;
+  unsigned v = ((unsigned)num << 4);
+  b[n++] = 0x41; b[n++] = 1; b[n++] = mid >> 8; b[n++] = mid & 255;
+  b[n++] = (uint8_t)(0x10 + p);
+  if (wrong_etag) { b[n++] = 0x41; b[n++] = 0x99; b[n++] = 0x71; } else b[n++] = 0xb1;        /* ETag (4), then Uri-Path (11) */
+  b[n++] = 'b';
+  if (v < 256) { b[n++] = 0xc1; b[n++] = (uint8_t)v; } else { b[n++] = 0xc2; b[n++] = (uint8_t)(v >> 8); b[n++] = (uint8_t)v; }    /* Block2 (23) */
+  fprintf(sim_trace, "{\"e\":\"Inject\",\"t\":%llu,\"peer\":%d,\"path\":\"b\",\"con\":1,\"obs\":-1,\"num\":%d,\"etag\":%d}\n", (unsigned long long)sim_now, p, num, wrong_etag);
+  sim_inject(&peer_addr[p], &srv_addr, b, n, 0, -1);
+  sim_run(sim_now + 5);
+}
+
 static void release_all(void) {
   int p;
   for (p = 0; p < NPEER; p++) {
@@ -254,7 +277,7 @@ static void free_ctx(void) {
   in_teardown = 1;
   coap_free_context(ctx);
   in_teardown = 0;
-  ctx = NULL; res_r = res_o = res_a = NULL; tcp_ep = NULL;
+  ctx = NULL; res_r = res_o = res_a = res_b = NULL; tcp_ep = NULL;
   memset(asyncs, 0, sizeof(asyncs));
   {
     int k;
@@ -336,6 +359,10 @@ int main(int argc, char **argv) {
       coap_register_request_handler(res_o, COAP_REQUEST_GET, h_req);
       coap_resource_set_get_observable(res_o, 1);
       coap_add_resource(ctx, res_o);
+      res_b = coap_resource_init(coap_make_str_const("b"), 0);
+      coap_register_request_handler(res_b, COAP_REQUEST_GET, h_req);
+      coap_add_resource(ctx, res_b);
+      coap_context_set_block_mode(ctx, COAP_BLOCK_USE_LIBCOAP);
       res_a = coap_resource_init(coap_make_str_const("a"), 0);
       coap_register_request_handler(res_a, COAP_REQUEST_GET, h_req);
       coap_add_resource(ctx, res_a);
@@ -361,6 +388,13 @@ int main(int argc, char **argv) {
     } else if (c == 'o') {
       request(p, "o", 1, 1);
       log_observers();
+    } else if (c == 'B') {
+      request_b(p, 0, 0);
+    } else if (c == 'b' || c == 'e') {
+      int num = 1;
+      sscanf(line + 1, "%d %d", &p, &num);
+      if (p < 0 || p >= NPEER) p = 0;
+      request_b(p, num, c == 'e');
     } else if (c == 'A') {
       request(p, "a", 1, -1);
     } else if (c == 'a') {
